@@ -105,3 +105,12 @@ package snowflake_proxy
 // ---- guarded-by declarations (C20) ----
 //@ guarded webRTCConn.dc by lock
 //@ guarded tokens_t.clients atomic
+//
+// ---- local addresses never leave the process (C08) ----
+//@ ghost var strippedSDP string
+//@ func (s *SignalingServer) sendAnswer(sid string, pc *webrtc.PeerConnection) (err error)
+//@   props C08
+//@   flag nosafety
+//@   assumes s != nil && pc != nil
+//@   after call StripLocalAddresses ghost strippedSDP = ret0
+//@   at call SerializeSessionDescription assert {sends-the-stripped-text} !s.keepLocalAddresses ==> calls(StripLocalAddresses) == 1 && arg0.SDP == strippedSDP
